@@ -10,6 +10,7 @@ from fractions import Fraction
 import qenv  # noqa: F401
 import torch
 from exact import FMT, FMT_NAME, codes_of, limbs, to_fractions
+from total import observable, raised_event, total
 from optimum.quanto import QTensor, absmax_scale, qtypes, quantize_activation, quantize_weight
 from optimum.quanto.tensor.optimizers import AbsmaxOptimizer, MaxOptimizer
 from optimum.quanto.tensor.quantizers import AffineQuantizer, SymmetricQuantizer
@@ -53,6 +54,7 @@ def maxfinite(fmt):
 
 
 # ---------------------------------------------------------------------------------------------
+@total("SymW", describe=lambda x, qt, scale, axis, route, tag=None: {"qt": qt, "fmt": FMT_NAME.get(x.dtype), "shape": list(x.shape), "axis": "none" if axis is None else axis, "route": route, "tag": tag})
 def sym_event(x, qt, scale, axis, route, tag=None):
     """x: float tensor; scale: 0-dim or per-axis tensor (same dtype)."""
     fmt = FMT_NAME[x.dtype]
@@ -180,6 +182,7 @@ def abstract_groups(shape, axis, gs):
     return [groups[k] for k in sorted(groups)]
 
 
+@total("AffW", describe=lambda x, bits, axis, gs, tag=None, optimizer=None: {"bits": bits, "fmt": FMT_NAME.get(x.dtype), "shape": list(x.shape), "axis": axis, "gs": gs if gs is not None else "none", "tag": tag})
 def aff_event(x, bits, axis, gs, tag=None, optimizer=None):
     fmt = FMT_NAME[x.dtype]
     qtype = qtypes["qint%d" % bits]
@@ -290,6 +293,7 @@ def drive_aff(req):
 
 
 # ---------------------------------------------------------------------------------------------
+@total("RangeW", describe=lambda x, qt, axis, gs, which: {"qt": qt, "fmt": FMT_NAME.get(x.dtype), "shape": list(x.shape), "axis": "none" if axis is None else axis, "gs": gs if gs is not None else "none", "which": which})
 def range_event(x, qt, axis, gs, which):
     """one optimizer call. which: absmax_opt | max_opt | absmax_scale"""
     fmt = FMT_NAME[x.dtype]
@@ -399,8 +403,17 @@ def drive_range(req):
                 if axis is None:
                     continue
                 for qt in ("qint8", "qfloat8_e4m3fn"):
-                    q = quantize_weight(x, qtypes[qt], axis)
+                    try:
+                        q = quantize_weight(x, qtypes[qt], axis)
+                    except Exception as e:  # noqa: BLE001
+                        if not observable(e):
+                            raise
+                        traces.append([raised_event("RangeW", e, qt=qt, fmt=fmt, shape=list(x.shape), axis=axis, which="quantize_weight8")])
+                        continue
                     ev = range_event(x, qt, axis if q.axis is not None else None, None, "absmax_opt")
+                    if ev["act"] == "Raised":
+                        traces.append([ev])
+                        continue
                     ev["observed_axis"] = "none" if q.axis is None else q.axis
                     # the scale actually used by quantize_weight
                     sc = to_fractions(q._scale)
@@ -441,8 +454,14 @@ def drive_range(req):
                         bits = qtypes[qt].bits
                         n = x.numel() // na
                         gs = None if bits == 8 else rnd.choice([None] + [d for d in divisors(n) if 1 < d < n])
-                        oa, ga = row_obs(x, qt, axis, gs)
-                        ob, gb = row_obs(y, qt, axis, gs)
+                        try:
+                            oa, ga = row_obs(x, qt, axis, gs)
+                            ob, gb = row_obs(y, qt, axis, gs)
+                        except Exception as e:  # noqa: BLE001
+                            if not observable(e):
+                                raise
+                            traces.append([raised_event("Pair", e, relation=rel, qt=qt, fmt=fmt, axis=axis, shape=list(shape), gs=gs if gs else "none")])
+                            continue
                         per = len(oa) // na        # groups per axis index
                         if rel == "rows-permuted":
                             pairs = [(perm[i], i) for i in range(na)]     # row perm[i] of x is row i of y
@@ -458,6 +477,7 @@ def drive_range(req):
     return traces
 
 
+@total("Finite", as_list=True, describe=lambda x, qt, axis, gs, used_classes, groups: {"qt": qt, "fmt": FMT_NAME.get(x.dtype), "shape": list(x.shape), "axis": axis, "gs": gs if gs is not None else "none", "classes": list(used_classes)})
 def finite_events(x, qt, axis, gs, used_classes, groups):
     """quantize_weight with the default optimizer on a degenerate tensor: [Finite, SymW|AffW]"""
     qtype = qtypes[qt]
@@ -553,9 +573,13 @@ def module_finite_events(req, rnd):
     from isolate import run_isolated
     out = []
     # one-time initialisations (kernels, op registration) happen here, not in every forked child
-    _zero_layer_case("float32", "qint4", "conv2d", "qint8", True, 0)
-    _zero_layer_case("float32", "qfloat8_e4m3fn", "linear", "qfloat8_e4m3fn", False, 0)
-    _calib_case("float32", "qint8", "constant", 0)
+    for warm in (lambda: _zero_layer_case("float32", "qint4", "conv2d", "qint8", True, 0),
+                 lambda: _zero_layer_case("float32", "qfloat8_e4m3fn", "linear", "qfloat8_e4m3fn", False, 0),
+                 lambda: _calib_case("float32", "qint8", "constant", 0)):
+        try:
+            warm()
+        except Exception:  # noqa: BLE001  (the isolated cases below report it)
+            pass
     for fmt in ("float32", "float16", "bfloat16"):
         for wq in ("qint8", "qfloat8_e4m3fn", "qfloat8_e5m2", "qint4", "qint2"):
             for kind in ("linear", "conv2d"):
